@@ -92,6 +92,26 @@ theorem cinv_history {c : LF} (hc : c.WF) (sid : Nat) {ts0 : List Tok} (hf : Fre
   intro id hid
   rw [getPosition_eq g2.sinv g2.cinv hid, g4, hc0]
 
+/-- A token edited while it is outside every store (`Tok.updateFree`) still carries the size of its text, so a
+list of insertable tokens stays insertable (`FreshToks`, the hypothesis of every mutator theorem above) after
+any of its members had its text changed while detached. -/
+theorem freshToks_updateFree {ts : List Tok} (hf : FreshToks ts) (id : Nat) (txt : List Char) :
+    FreshToks (ts.map fun t => if t.id = id then t.updateFree txt else t) := by
+  refine ⟨?_, ?_, ?_⟩
+  · intro t ht
+    obtain ⟨u, hu, rfl⟩ := List.mem_map.1 ht
+    by_cases h : u.id = id <;> simp [h, Tok.updateFree, hf.detached u hu]
+  · intro t ht
+    obtain ⟨u, hu, rfl⟩ := List.mem_map.1 ht
+    by_cases h : u.id = id <;> simp [h, Tok.updateFree, hf.sized u hu]
+  · have : (ts.map fun t => if t.id = id then t.updateFree txt else t).map (·.id) = ts.map (·.id) := by
+      rw [List.map_map]; apply List.map_congr_left; intro t _
+      by_cases h : t.id = id <;> simp [h, Tok.updateFree]
+    rw [this]; exact hf.nodup
+
+/-- The size cached on a detached token after an edit is the size of the new text, whatever it was before. -/
+theorem updateFree_sized (t : Tok) (txt : List Char) : (t.updateFree txt).size = tokSize (t.updateFree txt).text := rfl
+
 /-! ### The hypotheses are satisfiable -/
 
 open Autobean.Demo
